@@ -29,7 +29,7 @@ on a scratch worktree). They are kept under `/verif/seeded/<id>/`
 (patch.diff, demo_test.go, the agent's README.md, meta.json). None is ever
 committed to /repo.
 
-Result: 230 changes: 3 waves x 11 properties x 3 (the second and third wave
+Result: 252 changes: 3 waves x 11 properties x 3 (the second and third wave
 were also given one-line descriptions of the earlier changes so as not to
 repeat them, and the third was asked for the hardest-to-notice realistic
 change), plus a fourth wave of 16 in which each of four agents got all eleven
@@ -45,17 +45,23 @@ the agents were shown, for their property, what every earlier change was and
 what it needed, and asked for a dimension none of them had touched), and a
 ninth of 22 (2 per property, with the same list: one change made of two
 cooperating sites that each look fine alone, one that needs a particular
-fault, interleaving, kind of reader or sequence of calls).
-227 are reported by a quick check; 3 are recorded as not pursued
+fault, interleaving, kind of reader or sequence of calls), and a tenth of 22
+(one a performance optimisation - a cache, a pool, a fast path - whose
+invalidation, slow path or reuse is wrong; one an error path or a size-class
+boundary the tests never walk).
+249 are reported by a quick check; 3 are recorded as not pursued
 (C07-w6-m3 needs one particular coincidence of window sizes that neither the
 agent's own sweeps nor ours produce; C08-w3-m3 and C09-w3-m3 need sources / strings of 16 MiB and more - beyond
 every size class the properties name, at seconds and hundreds of MB per run).
-212 of the 227 are reported by the check of the property they were written
-against; 15 break another property's statement more directly and are reported
+230 of the 249 are reported by the check of the property they were written
+against; 19 break another property's statement more directly and are reported
 there (concurrent callers or real parallelism -> C12: C19-w2-m3, C06-w3-m2,
 C09-w3-m2, C19-w3-m2, C08-w6-m2, C11-w6-m3, C08-w7-m2, C14-w7-m2, C19-w7-m1;
 a failing dump write -> C18: C09-w3-m1, -> C13: C09-w6-m3; a reused Prog
--> C09: C14-w6-m2; these were written "against" a property
+-> C09: C14-w6-m2; a read error that comes with data -> C11: C06-w10-m2; a
+load refused -> C09: C08-w10-m2; a recursive read lock, seen twice in 60 000
+runs by C06 and as a stall by C12: C06-w9-m2; overlapping loads -> C12:
+C13-w10-m1; these were written "against" a property
 whose workload has no such dimension).
 Misses when first tried: 3 in wave 1, 13 in wave 2, 18 in wave 3 (hard mode),
 4 in wave 4, 6 in wave 5, about 12 in wave 6 and 11 in wave 7 (in wave 6 most,
@@ -71,7 +77,14 @@ file whose operand bytes carry positions of their own), 9 in wave 9
 pooled buffers that outlive a call, two; a Prog re-loaded after it was listed;
 a straggler goroutine reading the caller's buffer; a pipe fed in pieces -
 all nine reported after the strengthenings listed below, and C12-w9-m1,
-seen in 1 run before, in 126 after)
+seen in 1 run before, in 126 after), 8 in wave 10 (an integer constant of
+exactly 256^k; a refused target that holds pointers; a Close error raced on;
+same-named local types whose wrong result is wrong alone as well; a pooled
+channel closed by an earlier failed call - first "reported" only through
+synctest's own cross-bubble fatal error, which is now classified as a limit
+of the harness, and then properly by the new history check outside the
+bubble; more than 1000 nested constructs in C11; overlapping loads after a
+rejected file seen in 2, then 7 runs; the empty source in 1, then 5)
 - and one wave-4 change (an endless diagnostic loop in the parser)
 made the check run for over an hour before the supervisor was given a bound
 on worker deaths (section 12);
@@ -220,6 +233,25 @@ The strengthenings, in one list:
   through Load, against the direct runs; C18 standard-input kind 4, a pipe
   whose producer writes the program in three pieces with pauses; evidence
   reports `distinct_states` (abstract quiescent states of the pipeline).
+* Wave 10 added: C11's history check outside the bubble (`c11hist.go`: calls
+  that end badly in seven ways - read error after the parser failed, read
+  error with data, lexical failure with input left, read error at the first
+  read, failing Close, unclosed block at EOF - and then a valid multi-read
+  input that must be parsed, closed once and returned within 20 s; run first
+  thing in every worker process and every 16th run); C11 input class `deep`
+  (600-2100 open parentheses, signs, negations or blocks, closed, half
+  closed or left open, with statements behind); C16 targets that Bind refuses
+  and that hold pointers, maps, channels (only what Bind says is compared: the
+  harness itself never prints an address); C12: close errors in the pipeline
+  runs, two same-named local struct types bound by different callers with an
+  expectation that follows from type and source alone, concurrent loads of
+  interrupted files and non-dumps through slow yielding readers; C13 load
+  variant 14 (every observer option switched on, also in the magic and
+  version sweeps); integer literals on and next to the edges of the varint
+  size classes and machine words; the damage operator `insert_rune`
+  (characters beyond Latin-1, beyond the BMP, look-alike digits, separators,
+  non-characters at token boundaries); empty, blank-only and comment-only
+  sources in C09 and C18.
 * C19: programs with 236-330 locals; strings up to 4097 bytes; Execute given
   writers of its own; a failing output writer under all 8 settings; runs of
   more than 65 536 instructions.
